@@ -218,3 +218,37 @@ Proof.
   destruct (reflex_loop _ _ _ _ _ _) as [[toks errs] st]. destruct H as (H1 & T' & H2 & H3).
   split; [exact H1|]. cbn [rev app] in H2. subst toks. apply H3. discriminate.
 Qed.
+
+(** the only EOF token of the reference reading is the one it appends at the end of the text *)
+Definition not_eof (t : rtok) : Prop := rt_type t <> T_EOF.
+
+Lemma reflex_loop_eof : forall fuel l pos st toks errs,
+  let '(T, _, _) := reflex_loop fuel l pos st toks errs in
+  exists L, Forall not_eof L /\
+    (T = rev toks ++ L \/ T = rev toks ++ L ++ [mkRtok T_EOF CH_DEFAULT (pos + blen l) PNone]).
+Proof.
+  induction fuel as [|f IH]; intros l pos st toks errs; cbn [reflex_loop].
+  - cbv beta iota zeta. exists []. split; [constructor|left; rewrite app_nil_r; reflexivity].
+  - destruct l as [|c r].
+    + cbv beta iota zeta. exists []. split; [constructor|right]. cbn [rev blen app]. rewrite N.add_0_r. reflexivity.
+    + destruct (lexeme_chain (c :: r) pos st ltac:(discriminate)) as (_ & _ & Hne).
+      destruct (lexeme (c :: r) pos st) as [[[ts es] n] st'] eqn:El. unfold toks_of in Hne. cbn [fst snd] in Hne.
+      specialize (IH (skipn_N (N.to_nat n) (c :: r)) (pos + blen (firstn (N.to_nat n) (c :: r))) st' (rev_append ts toks) (rev_append es errs)).
+      assert (Hrev : rev (rev_append ts toks) = rev toks ++ ts) by (rewrite rev_append_rev, rev_app_distr, rev_involutive; reflexivity).
+      rewrite Hrev in IH.
+      destruct (reflex_loop f _ _ _ _ _) as [[T E] st2]. destruct IH as (L & HL & Hcase).
+      exists (ts ++ L). split; [apply Forall_app; split; assumption|].
+      rewrite <- N.add_assoc, <- (blen_split (c :: r) (N.to_nat n)) in Hcase.
+      destruct Hcase as [-> | ->]; [left|right]; rewrite <- !app_assoc; reflexivity.
+Qed.
+
+Theorem reflex_single_eof (src : list char) :
+  let '(bb, text) := match src with c :: r => if c =? 65279 then (utf8_len c, r) else (0, src) | [] => (0, src) end in
+  let '(T, _, _) := reflex src in
+  exists L, Forall not_eof L /\ (T = L \/ T = L ++ [mkRtok T_EOF CH_DEFAULT (bb + blen text) PNone]).
+Proof.
+  unfold reflex.
+  destruct (match src with c :: r => if c =? 65279 then (utf8_len c, r) else (0, src) | [] => (0, src) end) as [bb text].
+  pose proof (reflex_loop_eof (S (List.length text)) text bb (mkRstate false None [] 0) [] []) as H.
+  destruct (reflex_loop _ _ _ _ _ _) as [[toks errs] st]. exact H.
+Qed.
